@@ -18,7 +18,8 @@ EXPLANATION = (
 	'is order-isomorphic to CPython\'s precedence table for every operator both define; '
 	'(b) SyntaxParser.parse has a single return, dominated by the test `step.steps != length -> raise Errors.Syntax`, i.e. a tree is returned only when every token was consumed; '
 	'(c) the rule module the engine is run with is the compiled form of the reviewed grammar text (same obligation as C12, evaluated for the py pair). '
-	'Ordered-choice / no-backtracking hazards, unwrap semantics and error summaries need sentences, not shapes, and are not decided.'
+	'(d) the unwrap markers are applied by _unwrap_children over ALL children of a tree: `[1]` replaces a tree by its only child under len(children) == 1, `[*]` splices every child (placeholders of omitted optional parts count). '
+	'Ordered-choice / no-backtracking hazards, which rules carry which marker, and error summaries need sentences, not shapes, and are not decided.'
 )
 ASSUMPTIONS = ['operator tokens are read from the string / regexp terminals of the op_* rules (character classes and alternations of literals)']
 TRUSTED_BASE = ['CPython ast._Precedence/_Unparser tables', 'vlib/metagram.py', 're._parser (regexp terminals)']
@@ -434,6 +435,9 @@ def rule_e(rep: Report) -> None:
 	opt = rm.func('ASTSerializer._for_expr_opt')
 	opt_member = next((n.attr for n in ast.walk(opt.node) if isinstance(n, ast.Attribute) and isinstance(n.value, ast.Name) and n.value.id == 'Repeators'), None)
 
+	# locals assigned at the top level of the function before the loop: name -> expression over patterns.rep (limits, flags)
+	limits = {n.targets[0].id: n.value for n in f.node.body if isinstance(n, ast.Assign) and isinstance(n.targets[0], ast.Name)}
+
 	def ev(e: ast.AST, member: str):
 		"""evaluate a test over patterns.rep for `member`; None if it involves anything else"""
 		if isinstance(e, ast.Compare) and len(e.ops) == 1 and unparse(e.left) == rep_expr:
@@ -447,6 +451,11 @@ def rule_e(rep: Report) -> None:
 				return names == [member]
 			if isinstance(e.ops[0], ast.NotEq):
 				return names != [member]
+		if isinstance(e, ast.Name) and e.id in limits:
+			return ev(limits[e.id], member)  # `once = patterns.rep in (...)` before the loop
+		if isinstance(e, ast.UnaryOp) and isinstance(e.op, ast.Not):
+			v = ev(e.operand, member)
+			return None if v is None else (not v)
 		if isinstance(e, ast.BoolOp):
 			vs = [ev(v, member) for v in e.values]
 			if isinstance(e.op, ast.And):
@@ -458,14 +467,17 @@ def rule_e(rep: Report) -> None:
 	# the repetition counter: the local incremented by one inside the loop
 	counter = next((unparse(n.target) for n in ast.walk(loop) if isinstance(n, ast.AugAssign) and isinstance(n.op, ast.Add) and isinstance(n.value, ast.Constant) and n.value.value == 1), None) if loop is not None else None
 	zero = next((n for n in f.node.body if isinstance(n, ast.If) and counter is not None and unparse(n.test) in (f'{counter} == 0', f'not {counter}', f'{counter} < 1', f'0 == {counter}')), None)
+	if zero is None and counter is not None:
+		# the inverse form: `if <count> > 0: return ...` and the zero case as the rest of the function
+		for i_, n in enumerate(f.node.body):
+			if isinstance(n, ast.If) and unparse(n.test) in (f'{counter} > 0', f'{counter}', f'{counter} >= 1', f'{counter} != 0', f'0 < {counter}') and not n.orelse and n.body and isinstance(n.body[-1], ast.Return):
+				zero = ast.If(test=n.test, body=f.node.body[i_ + 1:], orelse=[])
 	if loop is None or zero is None:
 		r.skip('shape', f.where, '_match_repeat no longer has the shape `loop: match, count; ... if <count> == 0: ...`')
 		r.floor = 1
 		return
 	rep_expr = next((unparse(e.left) for e in ast.walk(f.node) if isinstance(e, ast.Compare) and isinstance(e.left, ast.Attribute) and e.left.attr == 'rep'), 'patterns.rep')
 	found = counter
-	# local limits assigned before the loop: name -> IfExp over patterns.rep
-	limits = {n.targets[0].id: n.value for n in f.node.body if isinstance(n, ast.Assign) and isinstance(n.targets[0], ast.Name)}
 
 	def max_reps(member: str):
 		# a break at the end of the body whose guard is true for this member
